@@ -1758,3 +1758,67 @@ def terminator_found(prog, rep, rule="W3-found"):
     if n < 1:
         raise cdb.AnalysisBroken("%s: no call of gotheaders in a handler that peeks at the window" % rule)
     return n
+
+
+def window_reads(prog, rep, rule="W11-inwindow"):
+    """Every byte of the reader's window that a handler looks at has arrived: in each function that obtains (buf, buflen) from
+    netbuf_read_peek, a read of buf[k], and a comparison or scan over n bytes at &buf[k], is made where buflen >= k + 1
+    (>= k + n) is established (relational, sa/poly.py; findeol(p, m) answers 0..m, and m exactly when there is no EOL).  The
+    bytes beyond buflen are whatever the buffer held before: a verdict on them depends on how the response was segmented."""
+    from .. import poly
+    from ..poly import Lin
+    u = prog.unit(UNIT)
+    n = 0
+    for f in u.funcs:
+        if f.file != UNIT:
+            continue
+        peeks = list(f.calls("netbuf_read_peek"))
+        if not peeks:
+            continue
+        a1, a2 = (norm(peeks[0].arg(i)) if peeks[0].arg(i) is not None else None for i in (1, 2))
+        if a1 is None or a2 is None or a1[0] != "&" or a2[0] != "&":
+            continue
+        bufv, lenv = a1[1], a2[1]
+
+        def eol(A, call, st, cs):
+            r = Lin.var(("$ret", A.f.name, call.pos))
+            m = A.lin(call.arg(1), st)
+            out = list(cs) + poly.cons(">=", r, Lin.const(0))
+            if m is not None:
+                out += poly.cons("<=", r, m)
+            return out
+        A = poly.Analysis(f, quiet={"findeol", "memcmp", "isxdigit", "warn0", "libcperciva_warn0", "libcperciva_warn", "__ctype_b_loc"}, post={"findeol": eol},
+                          unsigned_terms={lenv}).run()
+        seen = set()
+        for e in f.all_elems():
+            need = None
+            if e.cls == "ImplicitCastExpr" and e.op == "LValueToRValue" and e.kid(0) is not None and e.kid(0).strip() is not None and e.kid(0).strip().cls == "ArraySubscriptExpr":
+                k = e.kid(0).strip()
+                if norm(k.kid(0)) == bufv:
+                    need = (k.kid(1), 1, k)
+            elif e.cls == "CallExpr" and e.callee in ("memcmp", "memchr", "findeol") and e.arg(0) is not None:
+                t = norm(e.arg(0))
+                while t[0] == "cast":
+                    t = t[-1]
+                ln = e.arg(2) if e.callee != "findeol" else e.arg(1)
+                if t[0] == "&" and t[1][0] == "[]" and t[1][1] == bufv and ln is not None:
+                    a = e.arg(0).strip()
+                    while a is not None and a.cls in ("CStyleCastExpr", "ImplicitCastExpr", "ParenExpr"):
+                        a = a.kid(0).strip() if a.kid(0) is not None else None
+                    sub = a.kid(0).strip() if a is not None and a.cls == "UnaryOperator" and a.kid(0) is not None else None
+                    if sub is not None and sub.cls == "ArraySubscriptExpr":
+                        need = (sub.kid(1), ln, e)
+            if need is None or (need[2].line, need[2].text) in seen:
+                continue
+            seen.add((need[2].line, need[2].text))
+            st = A.state_before(e)
+            if st is None:
+                continue
+            n += 1
+            k = A.lin(need[0], st)
+            m = Lin.const(1) if need[1] == 1 else A.lin(need[1], st)
+            ok = k is not None and m is not None and A.holds(st, ">=", Lin.var(lenv), k + m)
+            rep.check(ok, rule, "%s: `%s` looks only at bytes that have arrived" % (f.name, need[2].text[:40]), need[2].where,
+                      "nothing on some path here establishes that %s exceeds the offset read: with fewer bytes buffered this looks at what the buffer held before, "
+                      "and the outcome depends on how the response was segmented" % show(lenv), function=f.name, construct="window-read")
+    return n
